@@ -36,7 +36,8 @@ nontrivial_rule("C17", "Non-trivial: the tensor has a degenerate spectrum (uniax
                        "or zero principal stresses) or is expressed in a frame rotated by more than 0.1 rad from its "
                        "principal axes; for the accessor clause: >= 2 rows.")
 assumptions("C17", [
-    "finite components with 1e-3 <= max|component| <= 1e6 (or the zero tensor); squares neither overflow nor underflow",
+    "finite components with 1e-15 <= max|component| <= 1e9 (or the zero tensor); squares neither overflow nor underflow; "
+    "whole-number tensors up to 1000 also in integer typed containers (python int, numpy.int64, int64 columns / frame columns)",
     "rotations are proper (det = +1), built in the harness from axis/angle or from the 24 cube rotations (exact)",
     "sign of a signed equivalent stress is asserted only where its indicator is not within rounding of zero, "
     "or is exactly zero by construction (then the documented +1)",
@@ -113,12 +114,25 @@ def near_hydrostatic(eig, scale):
 
 
 # ----------------------------------------------------------------------------- calling pyLife
+FLOAT_CONTAINER = {"int_scalar": "scalar", "npint_scalar": "scalar", "mixed_scalar": "scalar", "int_column": "column", "int_list": "list"}
+
+
+def _whole(x):
+    return float(x).is_integer()
+
+
 def call(name, comps, container):
-    """comps: list of N six-tuples. Returns list of N floats (principals: N triples)."""
+    """comps: list of N six-tuples. Returns list of N floats (principals: N triples).
+    Integer typed containers (python int, numpy.int64, int64 columns, lists of int) carry whole numbers only; if a
+    component is not a whole number the float counterpart is used ("mixed_scalar": int where whole, float elsewhere)."""
     f = getattr(EQ, name)
+    if container in ("int_scalar", "npint_scalar", "int_column", "int_list") and not all(_whole(x) for c in comps for x in c):
+        container = FLOAT_CONTAINER[container]
     cols = [[c[j] for c in comps] for j in range(6)]
-    if container == "scalar":
-        res = [f(*c) for c in comps]
+    if container in ("scalar", "int_scalar", "npint_scalar", "mixed_scalar"):
+        conv = {"scalar": lambda x: x, "int_scalar": int, "npint_scalar": lambda x: np.int64(int(x)),
+                "mixed_scalar": lambda x: int(x) if _whole(x) else float(x)}[container]
+        res = [f(*[conv(x) for x in c]) for c in comps]
         for r in res:
             want = (3,) if name == "principals" else ()
             if np.shape(r) != want:
@@ -126,6 +140,10 @@ def call(name, comps, container):
         return [np.asarray(r, dtype=float).tolist() for r in res]
     if container == "column":
         args = [np.array(col, dtype=float) for col in cols]
+    elif container == "int_column":
+        args = [np.array([int(x) for x in col], dtype=np.int64) for col in cols]
+    elif container == "int_list":
+        args = [[int(x) for x in col] for col in cols]
     elif container == "list":
         args = cols
     elif container == "series":
@@ -140,8 +158,11 @@ def call(name, comps, container):
     return r.tolist()
 
 
-def check_against_truth(comps, eigs, exact_zero, container, ctx, what):
-    """All definitional clauses for N tensors with known principal stresses."""
+def check_against_truth(comps, eigs, exact_zero, container, ctx, what, exact_trace=None):
+    """All definitional clauses for N tensors with known principal stresses.
+    exact_zero[i]: l_max + l_min == 0 of the given spectrum is exact for the tensor as passed (diagonal tensors);
+    exact_trace[i]: the components' diagonal sums exactly (diagonal or whole-number tensors)."""
+    exact_trace = exact_zero if exact_trace is None else exact_trace
     got = {name: call(name, comps, container) for name in FUNCS + ["principals"]}
     for i, (c, eig) in enumerate(zip(comps, eigs)):
         scale = max(abs(x) for x in eig)
@@ -203,7 +224,7 @@ def check_against_truth(comps, eigs, exact_zero, container, ctx, what):
                 raise Violation("tresca %r > 2/sqrt(3) mises %r for %r" % (g["tresca"], g["mises"], tuple(c)), bucket="ineq:tresca_le_mises")
         # ---- signed variants
         tr = ref["trace"]
-        if exact_zero[i] and (c[0] + c[1]) + c[2] == 0.0 and tr == 0.0:
+        if exact_trace[i] and (c[0] + c[1]) + c[2] == 0.0 and abs(tr) <= SIGN_MARGIN * scale:
             tr_sign = 1.0
             ctx.label("trace_exactly_zero")
         elif abs(tr) > SIGN_MARGIN * scale:
@@ -231,9 +252,12 @@ def _unit():
 
 @st.composite
 def _eigs(draw):
-    cls = draw(st.sampled_from(["general"] * 5 + ["uniaxial", "pure_shear", "repeated", "biaxial", "sym_tie"] * 3 +
+    cls = draw(st.sampled_from(["general"] * 5 + ["uniaxial", "pure_shear", "repeated", "biaxial", "sym_tie", "near_sym_tie"] * 3 +
                                ["hydrostatic", "near_hydrostatic", "zero"]))
-    if draw(st.booleans()):
+    k = draw(st.integers(0, 3))
+    if k == 0:
+        scale = 10.0 ** draw(st.integers(-12, 9))        # "every positive factor": Pa ... TPa, far from over/underflow of squares
+    elif k == 1:
         scale = 10.0 ** draw(st.integers(-3, 6))
     else:
         scale = draw(st.floats(1e-3, 1e6, allow_nan=False))
@@ -261,10 +285,15 @@ def _eigs(draw):
     elif cls == "sym_tie":
         a = abs(nz())
         e = [a, -a, a * draw(st.floats(-1.0, 1.0))]
+    elif cls == "near_sym_tie":
+        # |l_min| and l_max differ by a few ppm..ppb: the sign is decided, but only just
+        a = draw(st.floats(0.1, 1.0))
+        d = 1.0 + 10.0 ** draw(st.floats(-8.0, -3.0))
+        e = [a * d, -a, a * draw(st.floats(-0.9, 0.9))] if draw(st.booleans()) else [a, -a * d, a * draw(st.floats(-0.9, 0.9))]
     else:
         e = [0.0, 0.0, 0.0]
     e = [x * scale for x in e]
-    if cls != "zero" and max(abs(x) for x in e) < 1e-3:
+    if cls != "zero" and max(abs(x) for x in e) < 1e-3 * scale:
         e[0] = scale          # keep the documented magnitude range (construct, do not filter)
     e = list(draw(st.permutations(e)))
     return {"eig": e, "cls": cls}
@@ -314,21 +343,23 @@ def definitions(case, ctx):
 def _invariance_cases(draw, tier):
     mode = draw(st.sampled_from(["components", "components", "spectral"]))
     if mode == "components":
-        scale = 10.0 ** draw(st.integers(-3, 6))
+        scale = 10.0 ** draw(st.integers(-3, 6)) if draw(st.booleans()) else 10.0 ** draw(st.integers(-12, 9))
         c = [scale * draw(_unit()) for _ in range(6)]
-        pattern = draw(st.sampled_from(["full", "full", "plane", "shear_only", "diag_only"]))
-        keep = {"full": range(6), "plane": (0, 1, 3), "shear_only": (3, 4, 5), "diag_only": (0, 1, 2)}[pattern]
+        pattern = draw(st.sampled_from(["full", "full", "plane", "shear_only", "diag_only", "shear_cancel"]))
+        keep = {"full": range(6), "plane": (0, 1, 3), "shear_only": (3, 4, 5), "diag_only": (0, 1, 2), "shear_cancel": range(6)}[pattern]
         c = [x if j in keep else 0.0 for j, x in enumerate(c)]
-        if max(abs(x) for x in c) < 1e-3:
+        if pattern == "shear_cancel":                 # shear components that add up to zero exactly
+            c[3:] = draw(st.permutations([c[3], -c[3], 0.0]))
+        if max(abs(x) for x in c) < 1e-3 * scale:
             c[keep[0] if not isinstance(keep, range) else 0] = scale
-        base = {"comp": c}
+        base = {"comp": c, "pattern": pattern}
     else:
         base = draw(_eigs())
         base["rot0"] = draw(_rots())
     if draw(st.booleans()):
         factor = 2.0 ** draw(st.integers(-8, 8))
     else:
-        factor = draw(st.floats(1e-3, 1e3))
+        factor = draw(st.one_of(st.floats(1e-3, 1e3), st.integers(-9, 9).map(lambda k: 10.0 ** k)))
     return dict(base, rot=draw(_rots()), factor=factor, container=draw(st.sampled_from(["scalar", "column"])))
 
 
@@ -339,6 +370,7 @@ def rotation_scale(case, ctx):
     if "comp" in case:
         c0 = list(case["comp"])
         eig0 = None
+        ctx.label("pattern:" + case.get("pattern", "full"))
     else:
         c0, _ = assemble(case["eig"], case["rot0"])
         eig0 = case["eig"]
@@ -401,6 +433,87 @@ def rotation_scale(case, ctx):
             raise Violation("principals(a S) != a principals(S): %r vs %r * %r" % (scl["principals"], a, base["principals"]), bucket="scale:principals")
 
 
+# ---- tensors given by their components (whole numbers, simple fractions, cancelling shear), own eigen solver ---------
+def jacobi_eigenvalues(c):
+    """Eigenvalues of the symmetric tensor with Voigt components c by cyclic Jacobi rotations (plain Python, harness).
+    Accurate to a few eps * norm also for repeated eigenvalues; independent of LAPACK."""
+    a = [[float(c[0]), float(c[3]), float(c[4])], [float(c[3]), float(c[1]), float(c[5])], [float(c[4]), float(c[5]), float(c[2])]]
+    for _ in range(60):
+        off = a[0][1] ** 2 + a[0][2] ** 2 + a[1][2] ** 2
+        if off == 0.0:
+            break
+        for p, q, r in ((0, 1, 2), (0, 2, 1), (1, 2, 0)):
+            apq = a[p][q]
+            if apq == 0.0:
+                continue
+            theta = (a[q][q] - a[p][p]) / (2.0 * apq)
+            t = math.copysign(1.0, theta) / (abs(theta) + math.sqrt(theta * theta + 1.0)) if math.isfinite(theta * theta) else 0.5 / theta
+            cs = 1.0 / math.sqrt(t * t + 1.0)
+            sn = t * cs
+            a[p][p] -= t * apq
+            a[q][q] += t * apq
+            a[p][q] = a[q][p] = 0.0
+            arp, arq = a[r][p], a[r][q]
+            a[r][p] = a[p][r] = cs * arp - sn * arq
+            a[r][q] = a[q][r] = sn * arp + cs * arq
+    return sorted([a[0][0], a[1][1], a[2][2]])
+
+
+def _whole_numbers(lo, hi):
+    return st.one_of(st.integers(lo, hi), st.sampled_from([0, 0, 1, -1, 100, -100]))
+
+
+@st.composite
+def _component_cases(draw, tier):
+    pattern = draw(st.sampled_from(["int_full", "int_full", "int_small", "quarters", "shear_cancel", "shear_cancel", "plane", "shear_only",
+                                    "near_diagonal"]))
+    n = draw(st.integers(1, 4 if tier == "quick" else 12))
+    rows = []
+    for _ in range(n):
+        if pattern in ("int_full", "shear_cancel", "plane", "shear_only"):
+            c = [draw(_whole_numbers(-1000, 1000)) for _ in range(6)]
+            if draw(st.integers(0, 3)) == 0:
+                c = [x / 8.0 for x in c]                  # not whole, still exact
+        elif pattern == "int_small":
+            c = [draw(st.integers(-3, 3)) for _ in range(6)]
+        elif pattern == "quarters":
+            c = [draw(st.integers(-16, 16)) / 4.0 for _ in range(6)]
+        else:                                             # shear far below the diagonal
+            c = [float(draw(st.integers(-1000, 1000))) for _ in range(3)] + [draw(st.integers(-9, 9)) * 10.0 ** draw(st.integers(-9, -1)) for _ in range(3)]
+        if pattern == "shear_cancel":                     # every row: s12 + s13 + s23 == 0 exactly, not all zero
+            a, b = c[3], c[4]
+            c[3:] = draw(st.sampled_from([[a, -a, 0], [a, 0, -a], [0, a, -a], [a, b, -(a + b)]]))
+        elif pattern == "plane":
+            c[2] = c[4] = c[5] = 0
+        elif pattern == "shear_only":
+            c[0] = c[1] = c[2] = 0
+        rows.append(c)
+    container = draw(st.sampled_from(["scalar", "column", "list", "series", "int_scalar", "npint_scalar", "int_column", "int_column",
+                                      "int_list", "mixed_scalar"]))
+    return {"rows": rows, "pattern": pattern, "container": container}
+
+
+@subcheck("C17", "component_tensors", strategy=_component_cases, quick=4000, thorough=150000,
+          doc="tensors given by components (whole numbers in int / numpy.int64 / int64 columns, eighths, cancelling shear components, "
+              "plane and shear-only states): all definitions against the harness' own Jacobi eigenvalues")
+def component_tensors(case, ctx):
+    rows = case["rows"]
+    eigs = [jacobi_eigenvalues(c) for c in rows]
+    whole = all(_whole(x) for c in rows for x in c)
+    ctx.label("pattern:" + case["pattern"], "container:" + case["container"], "whole_numbers" if whole else "fractions")
+    if any(sum(1 for x in c[3:] if x != 0) >= 2 for c in rows) or any(_degenerate_spectrum(e) for e in eigs):
+        ctx.nontrivial()
+    diagonal = [all(x == 0 for x in c[3:]) for c in rows]
+    # the diagonal of these tensors sums exactly (whole numbers / eighths below 2^53): a zero trace is exactly zero
+    check_against_truth([[float(x) if not _whole(x) else x for x in c] for c in rows], eigs, diagonal, case["container"], ctx,
+                        "pattern=%s container=%s" % (case["pattern"], case["container"]), exact_trace=[True] * len(rows))
+
+
+def _degenerate_spectrum(e):
+    sc = max(abs(x) for x in e)
+    return sc == 0 or e[1] - e[0] <= 1e-12 * sc or e[2] - e[1] <= 1e-12 * sc or abs(e[0] + e[2]) <= 1e-12 * sc
+
+
 # ---- small exhaustive tier: every diagonal from a small alphabet, optionally one shear component -------------
 ALPHABET = [-2.0, -1.0, -0.5, 0.0, 0.5, 1.0, 2.0, 213.3]
 
@@ -448,18 +561,28 @@ def small_grid(case, ctx):
 
 # ---- accessor --------------------------------------------------------------------------------------------------
 COLS = ["S11", "S22", "S33", "S12", "S13", "S23"]
+DERIVED = ["scale", "reverse", "swap_axes", "copy_update", "shift_inplace", "row_update", "take"]
 
 
 @st.composite
 def _accessor_cases(draw, tier):
     n = draw(st.integers(1, 6 if tier == "quick" else 30))
-    tensors = [dict(draw(_eigs()), rot=draw(_rots())) for _ in range(n)]
-    return {"tensors": tensors,
+    if draw(st.integers(0, 3)) == 0:
+        # whole-number components in int64 columns
+        tensors = [{"comp": [draw(_whole_numbers(-1000, 1000)) for _ in range(6)]} for _ in range(n)]
+        dtype = "int"
+    else:
+        tensors = [dict(draw(_eigs()), rot=draw(_rots())) for _ in range(n)]
+        dtype = "float"
+    return {"tensors": tensors, "dtype": dtype,
             "index": draw(st.sampled_from(["range", "shuffled", "offset", "multi", "string", "duplicate"])),
             "perm": list(draw(st.permutations(range(n)))),
             "colperm": list(draw(st.permutations(range(6)))),
             "extra": draw(st.booleans()),
-            "drop": draw(st.one_of(st.none(), st.none(), st.integers(0, 5)))}
+            "drop": draw(st.one_of(st.none(), st.none(), st.integers(0, 5))),
+            "first": draw(st.sampled_from(["all", "principals", "max_principal", "min_principal", "tresca", "none"])),
+            "derived": draw(st.sampled_from(DERIVED)),
+            "factor": draw(st.sampled_from([3.0, 0.125, 2.5, 2, 1000.0]))}
 
 
 def _index(kind, perm):
@@ -480,23 +603,87 @@ def _index(kind, perm):
 
 
 def _same(a, b):
-    return a == b or (a != a and b != b)
+    # "the same numbers": up to 4 eps relative. numpy evaluates x ** 2 of a 0-d array through pow() and of a 1-d array
+    # through a multiplication, sqrt of sums then differs in the last place between the scalar call and the column
+    # (seen: mises row 8949.56580762955 vs scalar 8949.565807629548).
+    return a == b or (a != a and b != b) or abs(a - b) <= 4 * EPS * max(abs(a), abs(b))
+
+
+def _check_frame(df, what, methods=None):
+    """Every accessor method of ``df`` against the plain function evaluated row by row (scalar calls on the frame's own
+    numbers, python ints for integer columns)."""
+    idx = df.index
+    n = len(df)
+    comps = [[df[c].iloc[i].item() for c in COLS] for i in range(n)]
+    before = df.copy(deep=True)
+    acc = df.equistress
+    for name in (methods or FUNCS + ["principals"]):
+        res = getattr(acc, name)()
+        want = call(name, comps, "scalar")
+        if name == "principals":
+            if list(res.columns) != ["min_principal", "med_principal", "max_principal"] or not res.index.equals(idx) or len(res) != n:
+                raise Violation("%s: df.equistress.principals(): unexpected columns/index %r" % (what, res), bucket="accessor:form:principals")
+            for i in range(n):
+                gotr = res.iloc[i].tolist()
+                if not all(_same(x, y) for x, y in zip(gotr, want[i])):
+                    raise Violation("%s: df.equistress.principals() row %d = %r, principals(row) = %r (row %r)" % (what, i, gotr, want[i], comps[i]),
+                                    bucket="accessor:value:principals")
+            continue
+        if not isinstance(res, pd.Series) or res.name != name or not res.index.equals(idx) or len(res) != n:
+            raise Violation("%s: df.equistress.%s(): expected a Series named %r on the frame's index, got %r" % (what, name, name, res),
+                            bucket="accessor:form:%s" % name)
+        gotv = res.to_numpy().tolist()
+        for i in range(n):
+            if not _same(gotv[i], want[i]):
+                raise Violation("%s: df.equistress.%s() row %d = %r, %s(row) = %r (row %r)" % (what, name, i, gotv[i], name, want[i], comps[i]),
+                                bucket="accessor:value:%s" % name)
+    if not df.equals(before):
+        raise Violation("%s: accessor modified the frame's data" % what, bucket="accessor:mutation")
+
+
+def _derive(df, kind, factor):
+    """A frame obtained from an already evaluated one by ordinary pandas operations."""
+    if kind == "scale":
+        return df * factor
+    if kind == "reverse":
+        return df.iloc[::-1]
+    if kind == "take":
+        return df.iloc[[(2 * i + 1) % len(df) for i in range(len(df))]]          # rows picked / repeated, same length
+    if kind == "swap_axes":                                                     # axes 1 and 2 exchanged
+        return df.rename(columns={"S11": "S22", "S22": "S11", "S13": "S23", "S23": "S13"})
+    d = df.copy()
+    if kind == "copy_update":
+        d[COLS] = d[COLS] * factor
+    elif kind == "shift_inplace":                                               # superpose a hydrostatic state
+        for c in ("S11", "S22", "S33"):
+            d[c] = d[c] - 50
+    elif kind == "row_update":
+        d.iloc[0, [d.columns.get_loc(c) for c in COLS]] = [10, 0, 0, 0, 0, 0]
+    else:
+        raise ValueError(kind)
+    return d
 
 
 @subcheck("C17", "accessor", strategy=_accessor_cases, quick=2000, thorough=60000,
-          doc="df.equistress.<f>() == f(row) row by row (scalar calls), index and name preserved, independent of column order "
-              "and extra columns; a missing component raises AttributeError")
+          doc="df.equistress.<f>() == f(row) row by row (scalar calls), index and name preserved, independent of column order, extra columns "
+              "and column dtype (float64 / int64); a missing component raises AttributeError; the same for a frame derived from an "
+              "already evaluated one by pandas operations (df * k, reordering, renaming axes, copy + update)")
 def accessor(case, ctx):
-    comps = [assemble(t["eig"], t["rot"])[0] for t in case["tensors"]]
+    if case.get("dtype") == "int":
+        comps = [list(t["comp"]) for t in case["tensors"]]
+    else:
+        comps = [assemble(t["eig"], t["rot"])[0] for t in case["tensors"]]
     n = len(comps)
     idx = _index(case["index"], case["perm"])
     cols = [COLS[j] for j in case["colperm"]]
     data = {COLS[j]: [c[j] for c in comps] for j in range(6)}
     df = pd.DataFrame({k: data[k] for k in cols}, index=idx)
+    if case.get("dtype") == "int" and not all(str(t) == "int64" for t in df.dtypes):
+        raise RuntimeError("harness: integer frame expected, got %r" % (df.dtypes,))
     if case["extra"]:
         df.insert(int(case["colperm"][0]), "T", 20.0)
         df["S21"] = -1.0
-    ctx.label("index:" + case["index"], "rows:%d" % min(n, 3))
+    ctx.label("index:" + case["index"], "rows:%d" % min(n, 3), "dtype:" + case.get("dtype", "float"))
     if n >= 2:
         ctx.nontrivial()
     if case["drop"] is not None:
@@ -508,25 +695,15 @@ def accessor(case, ctx):
             ctx.tolerate("AttributeError for a missing component (documented)")
         else:
             raise Violation("accessor accepted a frame without column %s" % COLS[case["drop"]], bucket="accessor:missing_column")
-    before = df.copy(deep=True)
-    acc = df.equistress
-    for name in FUNCS:
-        res = getattr(acc, name)()
-        if not isinstance(res, pd.Series) or res.name != name or not res.index.equals(idx) or len(res) != n:
-            raise Violation("df.equistress.%s(): expected a Series named %r on the frame's index, got %r" % (name, name, res), bucket="accessor:form:%s" % name)
-        want = call(name, comps, "scalar")
-        gotv = res.to_numpy().tolist()
-        for i in range(n):
-            if not _same(gotv[i], want[i]):
-                raise Violation("df.equistress.%s() row %d = %r, %s(row) = %r (row %r)" % (name, i, gotv[i], name, want[i], comps[i]),
-                                bucket="accessor:value:%s" % name)
-    pr = acc.principals()
-    if list(pr.columns) != ["min_principal", "med_principal", "max_principal"] or not pr.index.equals(idx):
-        raise Violation("df.equistress.principals(): unexpected columns/index %r" % pr, bucket="accessor:form:principals")
-    want = call("principals", comps, "scalar")
-    for i in range(n):
-        gotr = pr.iloc[i].tolist()
-        if not all(_same(x, y) for x, y in zip(gotr, want[i])):
-            raise Violation("df.equistress.principals() row %d = %r, principals(row) = %r" % (i, gotr, want[i]), bucket="accessor:value:principals")
-    if not df.equals(before):
-        raise Violation("accessor modified the frame", bucket="accessor:mutation")
+    first = case.get("first", "all")
+    if first == "all":
+        _check_frame(df, "frame")
+    elif first != "none":
+        _check_frame(df, "frame", [first])
+    # ---- call history: a frame derived from the (evaluated) frame is a frame like any other
+    kind = case.get("derived")
+    if kind:
+        ctx.label("derived:" + kind, "first:" + first)
+        d = _derive(df, kind, case.get("factor", 3.0))
+        _check_frame(d, "frame derived by '%s' after evaluating %s" % (kind, first))
+        _check_frame(df, "original frame after evaluating the derived one")
